@@ -18,6 +18,7 @@ import (
 	"sort"
 	"strings"
 	"sync"
+	"time"
 )
 
 // Rng is SplitMix64; every random choice of every driver derives from one state.
@@ -65,6 +66,9 @@ type Driver struct {
 	Shrink   func(input string) []string // optional: smaller candidate inputs
 	Teardown func()
 	Parallel int // optional: run Exec on this many inputs concurrently (Exec must then be goroutine-safe)
+	// CaseTimeoutSec: a case whose Exec has not returned after this many seconds (default 120) is a hang of
+	// the implementation: the process reports the input on stderr and exits with code 3
+	CaseTimeoutSec int
 }
 
 var drivers = map[string]*Driver{}
@@ -185,6 +189,24 @@ func main() {
 		}
 		os.WriteFile(inflightPath, []byte(strings.Join(l, "\n")), 0o644)
 	}
+	caseTimeout := time.Duration(d.CaseTimeoutSec) * time.Second
+	if caseTimeout == 0 {
+		caseTimeout = 120 * time.Second
+	}
+	// execWatched runs one case; a case that never returns is reported and ends the process (exit 3)
+	execWatched := func(in string) Result {
+		ch := make(chan Result, 1)
+		go func() { ch <- d.Exec(in) }()
+		select {
+		case r := <-ch:
+			return r
+		case <-time.After(caseTimeout):
+			os.WriteFile(inflightPath, []byte(in), 0o644)
+			fmt.Fprintf(os.Stderr, "HANG: driver %s: the implementation did not return within %v on input: %s\n", name, caseTimeout, in)
+			os.Exit(3)
+		}
+		return Result{}
+	}
 	if d.Parallel > 1 {
 		sem := make(chan struct{}, d.Parallel)
 		var wg sync.WaitGroup
@@ -195,7 +217,7 @@ func main() {
 				defer wg.Done()
 				defer func() { <-sem }()
 				mark(i, in, true)
-				results[i] = d.Exec(in)
+				results[i] = execWatched(in)
 				mark(i, in, false)
 			}(i, in)
 		}
@@ -203,7 +225,7 @@ func main() {
 	} else {
 		for i, in := range inputs {
 			os.WriteFile(inflightPath, []byte(in), 0o644)
-			results[i] = d.Exec(in)
+			results[i] = execWatched(in)
 		}
 	}
 	os.Remove(inflightPath)
